@@ -270,6 +270,13 @@ func (m *Mast) flush(ctx context.Context) (string, error) {
 	if err != nil {
 		return "", fmt.Errorf("load root: %w", err)
 	}
+	if node.isEmpty() {
+		// an empty tree has no nodes; its root has no link
+		if node.dirty {
+			node.dirty = false
+		}
+		return "", nil
+	}
 	storeQ := make(chan func() error)
 	n := 40
 	gate := make(chan interface{}, n)
